@@ -269,7 +269,9 @@ func (i idxField) SetValue(opts *options, elem value, v value) Error {
 	if !ok {
 		return raiseExpectedObject(opts, elem)
 	}
-	if i.i < 0 {
+	if i.i < 0 || int64(i.i) > opts.maxIdx {
+		// the index given to a setter is capped like an index parsed from a
+		// key: the list would have to grow to i+1 entries
 		return raiseIndexOutOfBounds(opts, elem, i.i)
 	}
 
